@@ -23,6 +23,22 @@ NA = {
     "C19": "constructor validation, scaling and three pure predicates; no seam.",
 }
 
+TECH = {
+    "C03": "deterministic simulation: seeded search over workloads x RNG schedules (scheduler owns every pivot draw; full pivot-tree sweep in thorough) x cplex environments (absent / broken import / stand-in peer) x in-place edit histories; structural oracle vs. a reference dataset model; ddmin-minimised replay files",
+    "C04": "deterministic simulation: seeded histories interleaving algorithm calls on shared instances with reads of the lazily cached score, RNG schedules, cplex environments; reference-scorer oracle; minimised replay files",
+    "C05": "deterministic simulation with fault injection: the import fault (cplex absent / broken) is the fault, stand-in CPLEX peer solves the model it is handed, real CBC peer; brute-force / subset-DP optimum and full minimiser set as oracle; seeded search, minimised replay files",
+    "C06": "deterministic simulation: spy peer observes delegation to the auxiliary, stand-in CPLEX / real CBC solve components, RNG schedule for a KwikSort auxiliary; brute-force minimiser set as oracle; seeded search, minimised replay files",
+    "C08": "deterministic simulation: RNG schedule decides KwikSort-started start points (sweep in thorough), shared instances and in-place dataset edits between calls; reference single-move neighbourhood as oracle; seeded search, minimised replay files",
+    "C09": "deterministic simulation: spy peers capture each starter's consensus under the run's RNG schedule, hash seed and insertion orders per cell; reference scorer as oracle; seeded search, minimised replay files",
+    "C11": "deterministic simulation: the scheduler decides every pivot; each execution is refined against an executable reference KwikSort fed with the recorded pivots; seeded search over schedules plus depth-first sweep of the whole pivot-choice tree (thorough)",
+    "C14": "deterministic simulation with fault injection: cplex environment (absent / broken import / stand-in) decides whether 'never refused' can hold; nested configurations with scheduled random draws; predicate/outcome agreement oracle; seeded search, minimised replay files",
+    "C15": "deterministic simulation with fault injection: histories on shared objects vs. a fresh-copy world with replayed RNG traces, solver-peer failures (PulpSolverError / not solved) at the k-th solve; snapshot invariants after every operation; seeded search, minimised replay files",
+    "C16": "deterministic simulation: histories of mutators incl. refused ones (crash points inside the history), constructors via simulated filesystem and scheduled generators; reference dataset model recomputed after every operation; seeded search, minimised replay files",
+    "C17": "deterministic simulation: hash seed per cell, recorded insertion orders, colliding int pools, derivation routes (projection, unification, simulated file round trip), compare-edit-compare histories; multiset-of-rankings model as oracle",
+    "C18": "deterministic simulation with fault injection: simulated filesystem with crash / ENOSPC / lost write / flipped character / duplicated or lost line inside the write, deterministic step meter for bounded liveness; round-trip model equality and parser totality as oracles",
+    "C20": "deterministic simulation: every randint/shuffle of the Markov walk is a scheduler decision (uniform, biased, degenerate policies); invariant monitor after every single step plus end-of-run shape oracle; seeded search over walks",
+}
+
 ALL = ["C%02d" % i for i in range(1, 21)]
 DESIGN_REF = {p: f"DESIGN.md section 4, {p}" for p in ALL}
 
@@ -48,9 +64,7 @@ def main():
             "engine": "corsim",
             "level_claimed": {"category": "exploration", "text": mod.LEVEL_TEXT, "design_ref": DESIGN_REF[pid]},
             "level_note": "; ".join(getattr(mod, "ASSUMPTIONS", [])) or "reference models in corsim/model.py",
-            "technique": getattr(mod, "TECHNIQUE", "deterministic simulation with fault injection: seeded search "
-                                                   "over workloads x schedules x faults, reference-model oracle, "
-                                                   "minimised replayable traces"),
+            "technique": TECH[pid],
         })
     manifest = {
         "version": 1,
